@@ -2,6 +2,7 @@ package sim
 
 import (
 	"fmt"
+	apiequality "k8s.io/apimachinery/pkg/api/equality"
 	"os"
 	"sort"
 	"strings"
@@ -644,6 +645,21 @@ func (m *Monitors) onERS(inv *simapi.Invocation, out kit.Outcome) {
 	if statusWrite != nil && statusWrite.Submitted != nil && (role == "active" || role == "canary") && v.HasPods {
 		st := statusWrite.Submitted.(*v1.ExtendedDaemonSetReplicaSet).Status
 		ctx.Count("C14.rs-status-writes-judged")
+		if role == "active" && managed {
+			// desired of the active replica set = the nodes it targets as read (eligible, not reserved for
+			// the canary), whatever state their pods are in (a pod stuck unscheduled or terminating does
+			// not make its node less desired)
+			n := 0
+			for name := range v.Nodes {
+				if eligible(name) && !v.Canary[name] {
+					n++
+				}
+			}
+			ctx.Count("C14.sim-active-desired-judged")
+			if int(st.Desired) != n {
+				m.viol("C14", "C14.rs-desired", map[string]string{"role": role}, inv, map[string]any{"desired": st.Desired, "targetedNodesAsRead": n, "ignoredUnresponsiveNodes": st.IgnoredUnresponsiveNodes})
+			}
+		}
 		if !(0 <= st.Available && st.Available <= st.Ready && st.Ready <= st.Current && st.Current <= st.Desired) {
 			m.viol("C14", "C14.rs-status-order", map[string]string{"role": role}, inv, map[string]any{"status": fmt.Sprintf("desired=%d current=%d ready=%d available=%d", st.Desired, st.Current, st.Ready, st.Available)})
 		}
@@ -1342,6 +1358,10 @@ func (m *Monitors) onPodTemplate(inv *simapi.Invocation, out kit.Outcome) {
 	p := pt.(*corev1.PodTemplate)
 	if kit.MarkerOfTemplate(&p.Template) != kit.MarkerOfTemplate(&eds.Spec.Template) {
 		m.viol("C13", "C13.podtemplate", map[string]string{"cause": "template-differs"}, inv, map[string]any{"podtemplate": kit.MarkerOfTemplate(&p.Template), "spec": kit.MarkerOfTemplate(&eds.Spec.Template)})
+	} else if !specEqual(&p.Template, &eds.Spec.Template) || !apiequality.Semantic.DeepEqual(p.Template.Labels, eds.Spec.Template.Labels) {
+		// "keeps the PodTemplate object ... equal to spec.template": the whole template, not only what
+		// identifies it (a leftover nodeSelector, toleration or label of an earlier template counts)
+		m.viol("C13", "C13.podtemplate", map[string]string{"cause": "template-content-differs"}, inv, map[string]any{"podtemplate": fmt.Sprintf("%+v", p.Template), "spec": fmt.Sprintf("%+v", eds.Spec.Template)})
 	}
 	// its hash annotation equals the hash of the replica set created for that template
 	for _, rs := range kit.RSs(m.w.S) {
